@@ -23,4 +23,44 @@ theorem generated_tips_eq_tipsOf (r : Rose) (pids : List Int) (h : C06.IsTree r 
 
 example : get_tips (rangeI 5) [-1, 0, 1, 1, 3] = some [2, 4] := by decide +kernel
 
-end C08
+/-! ### `Tree.Node.branch` -/
+open RefineNodeBranch
+
+/-- **`Tree.Node.branch` as translated equals the model `nodeBranch`** on every tree (`IsTree r pids`: any shape, any numbering with the
+root first), for every node handle `0 ≤ k < n` and every fuel `≥ n + 1`: neither `while` loop runs out of fuel, nothing raises -/
+theorem generated_nodeBranch_eq_model (r : Rose) (pids : List Int) (h : C06.IsTree r pids) (k : Int) (h0 : 0 ≤ k) (hk : k < pids.length)
+    (F : Nat) (hF : pids.length + 1 ≤ F) :
+    node_branch F (rangeI pids.length) pids k = some (nodeBranch pids F k) :=
+  nodeBranch_refines (Represent.represented_wf pids r h) k h0 hk F hF
+
+/-- **shape of `Tree.Node.branch` as translated** (`_partial` with respect to "the branch of `branchesOf` through the node", see the
+notes): the result is `up.reverse ++ down` where `up` starts at the node and climbs parent by parent through non-furcations to the nearest
+furcation or the root (`UpOK`), and `down` descends from the node through ONLY children to the next furcation or tip (`DownOK`).  So the
+result is a parent→child chain through the node, starts at a furcation / the root (or is the node alone when the node is a furcation),
+ends at a furcation / tip, and every interior node has exactly one child.
+
+Missing for the full statement: that this chain IS the member of `branchesOf r` through `k` (for a non-furcation `k` of a tree with ≥ 2
+nodes) — it needs the converse of `C08.branch_shape` (uniqueness of the shaped chain through an edge). -/
+theorem generated_nodeBranch_shape_partial (r : Rose) (pids : List Int) (h : C06.IsTree r pids) (k : Int) (h0 : 0 ≤ k)
+    (hk : k < pids.length) (F : Nat) (hF : pids.length + 1 ≤ F) :
+    ∃ up down, node_branch F (rangeI pids.length) pids k = some (up.reverse ++ down) ∧ up.head? = some k ∧
+      UpOK (KK pids) pids up ∧ DownOK (KK pids) k down := by
+  have hw := Represent.represented_wf pids r h
+  obtain ⟨up, down, e, h1, h2, h3⟩ := nodeBranch_shape hw k h0 hk F hF
+  exact ⟨up, down, by rw [nodeBranch_refines hw k h0 hk F hF, e], h1, h2, h3⟩
+
+/-- the quirk of DESIGN.md §6, for the code as translated: **`Node.branch()` of a furcation is the one-node branch** -/
+theorem generated_nodeBranch_furcation (r : Rose) (pids : List Int) (h : C06.IsTree r pids) (k : Int) (h0 : 0 ≤ k) (hk : k < pids.length)
+    (hf : 2 ≤ (tableKids (rangeI pids.length) pids k).length) :
+    node_branch (pids.length + 1) (rangeI pids.length) pids k = some [k] := by
+  rw [generated_nodeBranch_eq_model r pids h k h0 hk _ (Nat.le_refl _)]
+  exact congrArg some (nodeBranch_furcation pids k pids.length hf)
+
+/-- non-vacuity (kernel-evaluated) on `0 → 1 → {2, 3 → 4}`: the stem through the root, the one-node branch of the furcation 1, and the
+branch `1, 3, 4` found from its interior node 3 and from its tip 4 -/
+example : node_branch 6 (rangeI 5) [-1, 0, 1, 1, 3] 0 = some [0, 1] ∧ node_branch 6 (rangeI 5) [-1, 0, 1, 1, 3] 1 = some [1] ∧
+          node_branch 6 (rangeI 5) [-1, 0, 1, 1, 3] 3 = some [1, 3, 4] ∧ node_branch 6 (rangeI 5) [-1, 0, 1, 1, 3] 4 = some [1, 3, 4] ∧
+          node_branch 6 (rangeI 5) [-1, 0, 1, 1, 3] 5 = none ∧ nodeBranch [-1, 0, 1, 1, 3] 6 3 = [1, 3, 4] := by decide +kernel
+/-- the hypothesis `IsTree` is satisfiable (and, by `Represent.wf_represented`, holds for EVERY well-formed parent list) -/
+example : ∃ r, C06.IsTree r [-1, 0, 1, 1, 3] :=
+  Represent.wf_represented _ ⟨rfl, by decide, by decide +kernel⟩
